@@ -37,7 +37,21 @@ R1  species-axis agreement (T-AGREE): the sequence whose position supplies the
     (`[val[tm] for tm in S]` -> S) or else by V itself (`list(val.values())`:
     the mapping's own order, not the axis'), `zip(S, var[index])` labels a row
     read with S; which axis a slice runs along is read from the dimension
-    combinations whose arm holds the statement.  R1b the same for the
+    combinations whose arm holds the statement.  An object that wraps the
+    sequence counts for the sequence it was constructed over (Holder: a
+    repository class whose constructor keeps one sequence handed to it, in an
+    attribute stored once and never written or changed again, optionally with
+    a per-instance position table {member: position} built in the constructor
+    over that same sequence): `for i, x in X.pairs(…)` over a generator /
+    returned comprehension of (position, member) pairs - either order - of
+    members of the sequence, `X.position(x)` (every return a table look-up or
+    `S.index(x)`) and iteration of X are read as enumerate(S) / S.index(x) /
+    `for x in S`; S is the constructor argument where X is built, also
+    through an attribute computed once at construction from the owner's other
+    attributes (`self.axis = K(self.species)` read as `nc_file.axis`, which
+    cannot go stale: neither attribute is stored anywhere else).  A table
+    over another order, a shifted position or a shared class-level table is
+    not a Holder (undecided; the last is C03-O2).  R1b the same for the
     thrust-mode axis.  R1c the index variables are used in the subscript in
     dimension order - through chained subscripts and locals that hold one
     record (`cell = var[index]` … `cell[si, ti]`) - and a position is the
@@ -49,7 +63,9 @@ R1  species-axis agreement (T-AGREE): the sequence whose position supplies the
     its body (nested loops and compound statements included); a pass may only
     go on to the next member (`continue`, an `if` around the store) or raise.
     Leaving drops every later member of the value (`if sp not in val: return`
-    where `continue` was meant).  A leave under a condition that mentions
+    where `continue` was meant).  The loop inside a Holder's pair generator
+    is such a loop too (`break` / `return` there ends the writer's walk).  A
+    leave under a condition that mentions
     nothing bound in the loop is a guard of the whole loop and not judged.
     Floor: 2 loops.
     Scopes of R1 / R1b / R1c / R1e / R6: the writer / reader, the methods its
@@ -62,7 +78,8 @@ R1  species-axis agreement (T-AGREE): the sequence whose position supplies the
     `.species` of the very file object that owns the variable: both
     arguments are resolved with Flow (hoisted, items()-iterated, passed
     through a property such as `species_list` or a store-wide `species`
-    property) and their owners compared.
+    property; a Holder by the list it was constructed over) and their owners
+    compared.
 R2  absent <-> skipped agreement.  Writer: walked with the value None and
     `field.required` fixed (tests decided by these facts followed, others
     explored both ways): required -> every way raises; optional -> every way
@@ -633,11 +650,424 @@ def _is_fresh_container(v) -> bool:
                                                         'OrderedDict', 'collections.OrderedDict') and not v.args
 
 
+# ------------------------------------------------------ sequence holders --
+_MUTATING = {'append', 'extend', 'insert', 'remove', 'pop', 'clear', 'sort', 'reverse', 'update', 'setdefault',
+             'popitem', 'add', 'discard', '__setitem__', '__delitem__'}
+
+
+def _self_attr(e):
+    """A for `self.A`"""
+    return e.attr if isinstance(e, ast.Attribute) and isinstance(e.value, ast.Name) and e.value.id == 'self' else None
+
+
+def _attr_writes(tree, attr):
+    """every construct under `tree` that gives an attribute called `attr` (of any object) a value or changes the
+    object it holds in place: [(kind, node)], kind 'plain' (`X.attr = V`, node = the statement), 'fill'
+    (`X.attr[k] = v`, node = the statement) or 'other' (augmented / tuple / loop / with targets, del, mutating
+    method calls)"""
+    out = []
+    for n in ast.walk(tree):
+        if isinstance(n, ast.Attribute) and n.attr == attr:
+            par = getattr(n, '_parent', None)
+            if isinstance(n.ctx, ast.Store):
+                if isinstance(par, ast.Assign) and any(t is n for t in par.targets):
+                    out.append(('plain', par))
+                elif isinstance(par, ast.AnnAssign) and par.target is n:
+                    if par.value is not None:
+                        out.append(('plain', par))
+                else:
+                    out.append(('other', n))
+            elif isinstance(n.ctx, ast.Del):
+                out.append(('other', n))
+            elif isinstance(par, ast.Subscript) and par.value is n and isinstance(par.ctx, (ast.Store, ast.Del)):
+                pp = getattr(par, '_parent', None)
+                if isinstance(par.ctx, ast.Store) and isinstance(pp, ast.Assign) and len(pp.targets) == 1 \
+                        and pp.targets[0] is par:
+                    out.append(('fill', pp))
+                else:
+                    out.append(('other', par))
+            elif isinstance(par, ast.Attribute) and par.value is n and par.attr in _MUTATING \
+                    and isinstance(getattr(par, '_parent', None), ast.Call) and par._parent.func is par:
+                out.append(('other', par))
+    return out
+
+
+def _methods_of(cls):
+    """name -> FunctionInfo of the methods written in the class body (the loader does not fill `methods` for a
+    class nested in a class: those are found in the module's function table by their node)"""
+    if cls.methods:
+        return cls.methods
+    by_node = {id(f.node): f for f in cls.module.functions.values()}
+    out = {}
+    for s_ in cls.node.body:
+        if isinstance(s_, (ast.FunctionDef, ast.AsyncFunctionDef)) and id(s_) in by_node:
+            out.setdefault(s_.name, by_node[id(s_)])
+    return out
+
+
+class Holder:
+    """What a repository class that wraps ONE sequence handed to its constructor gives out about it.  `param`: the
+    constructor parameter; `seq_attrs`: attributes that hold the sequence's members in its order for the life of
+    the object (stored once, at the top level of the constructor, never written or changed again by anything in
+    the module); `tables`: attributes that hold the position table of the sequence ({member: position}), built
+    per instance in the constructor by a comprehension / dict(zip(S, range(len(S)))) or by an unconditional
+    `self.T[m] = i` in a loop that pairs positions and members, and never written again; `pos_methods`: methods
+    m(self, x) every return of which is the position of x (table look-up, `S.index(x)`); `pair_gens`: methods
+    that produce (position, member) pairs of members of the sequence - generators all of whose yields are such
+    pairs inside one loop over the sequence, or a returned comprehension - name -> (place of the position in the
+    pair, the loop or None, the method); `iterates`: iterating the object walks the members in order."""
+
+    def __init__(self, cls, param):
+        self.cls, self.param = cls, param
+        self.seq_attrs, self.tables = set(), set()
+        self.pos_methods, self.pair_gens, self.iterates = set(), {}, False
+
+
+def _ctor_of(cls):
+    """(constructor parameters, the method whose body runs at construction or None, written by hand?)"""
+    init = _methods_of(cls).get('__init__')
+    if init is not None:
+        a = init.node.args
+        if a.vararg or a.kwarg or init.params[:1] != ['self']:
+            return None
+        return init.params[1:], init, True
+    if any('dataclass' in ast.unparse(d) for d in cls.node.decorator_list):
+        ps = []
+        for s in cls.node.body:
+            if isinstance(s, ast.AnnAssign) and isinstance(s.target, ast.Name) and 'ClassVar' not in ast.unparse(s.annotation):
+                v = s.value
+                if isinstance(v, ast.Call) and call_name(v).endswith('field') and \
+                        isinstance(kwarg(v, 'init'), ast.Constant) and kwarg(v, 'init').value is False:
+                    continue
+                ps.append(s.target.id)
+        return ps, _methods_of(cls).get('__post_init__'), False
+    return None
+
+
+def holder_of(prog, cls):
+    """the Holder summary of class cls, or None when cls is not (recognisably) a holder of exactly one sequence"""
+    if cls is None:
+        return None
+    if hasattr(cls.node, '_c03_holder'):
+        return cls.node._c03_holder
+    cls.node._c03_holder = None
+    ct = _ctor_of(cls)
+    if ct is None or cls.bases or len(cls.mro()) > 1:
+        return None
+    params, body, by_hand = ct
+    tree = cls.module.tree
+    level = cls.class_assignments()
+    top = list(body.node.body) if body is not None else []
+
+    def in_ctor_top(st):
+        return any(st is s for s in top)
+
+    def writes(attr):
+        return [(k, n) for k, n in _attr_writes(tree, attr) if not _of_other_class(n, attr, cls)]
+
+    found = []
+    for p in params:
+        h = Holder(cls, p)
+        if by_hand and any(isinstance(x, ast.Name) and x.id == p and isinstance(x.ctx, (ast.Store, ast.Del))
+                           for x in ast.walk(body.node)):
+            continue
+
+        def seq_of(e, meth, depth=0):
+            e = _strip_seq(e)
+            if depth > 4 or e is None:
+                return False
+            a = _self_attr(e)
+            if a is not None:
+                return a in h.seq_attrs
+            if isinstance(e, ast.Name):
+                if by_hand and meth is body and e.id == p:
+                    return True
+                if meth is not None and e.id not in meth.params:
+                    v = single_def_value(meth.node, e.id)
+                    return v is not None and seq_of(v, meth, depth + 1)
+            return False
+
+        def pairing(target, it, holder_node, meth):
+            """(position variable or None, member variable) when `for target in it` walks the members of the sequence"""
+            if isinstance(target, ast.Name) and seq_of(it, meth):
+                return None, target.id
+            for ivar, evar, src, node in _enumerates(holder_node):
+                if (node is it or same_site(node, it)) and evar and seq_of(src, meth):
+                    return ivar, evar
+            return None
+
+        def table_expr(v, meth):
+            if isinstance(v, ast.DictComp) and len(v.generators) == 1 and not v.generators[0].ifs:
+                g = v.generators[0]
+                pr = pairing(g.target, g.iter, v, meth)
+                return pr is not None and pr[0] is not None and isinstance(v.key, ast.Name) and v.key.id == pr[1] \
+                    and isinstance(v.value, ast.Name) and v.value.id == pr[0]
+            dz = _dict_of_zip(v)
+            if dz is not None and seq_of(dz[0], meth):
+                r = dz[1]
+                if isinstance(r, ast.Call) and call_name(r) in ('itertools.count', 'count') and not r.args:
+                    return True
+                return isinstance(r, ast.Call) and call_name(r) == 'range' and len(r.args) == 1 and \
+                    isinstance(r.args[0], ast.Call) and call_name(r.args[0]) == 'len' and len(r.args[0].args) == 1 \
+                    and seq_of(r.args[0].args[0], meth)
+            return False
+
+        def fill_is_table(st, meth):
+            """`self.T[m] = i` directly in the body of a top-level constructor loop that pairs i with member m"""
+            lp = getattr(st, '_parent', None)
+            if not (isinstance(lp, ast.For) and in_ctor_top(lp) and any(st is s for s in lp.body) and not lp.orelse):
+                return False
+            pr = pairing(lp.target, lp.iter, lp, meth)
+            t = st.targets[0]
+            return pr is not None and pr[0] is not None and isinstance(t.slice, ast.Name) and t.slice.id == pr[1] \
+                and isinstance(st.value, ast.Name) and st.value.id == pr[0] and not early_leaves(lp) \
+                and not any(isinstance(x, (ast.Continue, ast.Break, ast.Return)) for x in ast.walk(lp))
+
+        attrs = {n.attr for n in ast.walk(cls.node) if isinstance(n, ast.Attribute) and _self_attr(n)}
+        if not by_hand:
+            h_ws = writes(p)
+            if not h_ws:
+                h.seq_attrs.add(p)
+        for _ in range(3):
+            for a in sorted(attrs - h.seq_attrs - h.tables):
+                ws = writes(a)
+                plain = [n for k, n in ws if k == 'plain']
+                fills = [n for k, n in ws if k == 'fill']
+                if any(k == 'other' for k, n in ws) or len(plain) != 1 or not in_ctor_top(plain[0]) \
+                        or _self_attr(plain[0].targets[0] if isinstance(plain[0], ast.Assign) else plain[0].target) != a \
+                        or (isinstance(plain[0], ast.Assign) and len(plain[0].targets) != 1):
+                    continue
+                v = plain[0].value
+                if not fills and seq_of(v, body):
+                    h.seq_attrs.add(a)
+                elif not fills and table_expr(v, body):
+                    h.tables.add(a)
+                elif len(fills) == 1 and isinstance(v, ast.Dict) and not v.keys or \
+                        len(fills) == 1 and isinstance(v, ast.Call) and call_name(v) == 'dict' and not v.args and not v.keywords:
+                    if fill_is_table(fills[0], body) and plain[0].lineno < fills[0].lineno:
+                        h.tables.add(a)
+
+        def pos_expr(e, member, meth, depth=0):
+            if depth > 3:
+                return False
+            if isinstance(e, ast.Subscript) and _self_attr(e.value) in h.tables:
+                return isinstance(e.slice, ast.Name) and e.slice.id == member
+            if isinstance(e, ast.Call) and isinstance(e.func, ast.Attribute) and e.func.attr == 'index' \
+                    and len(e.args) == 1 and not e.keywords:
+                return isinstance(e.args[0], ast.Name) and e.args[0].id == member and seq_of(e.func.value, meth)
+            if isinstance(e, ast.Name) and e.id not in meth.params:
+                v = single_def_value(meth.node, e.id)
+                return v is not None and pos_expr(v, member, meth, depth + 1)
+            return False
+
+        def pair_of(elt, ivar, evar, meth):
+            """which element of the 2-tuple `elt` is the position of member evar (0 / 1), or None"""
+            if not (isinstance(elt, ast.Tuple) and len(elt.elts) == 2):
+                return None
+            for k in (0, 1):
+                pe, me = elt.elts[k], elt.elts[1 - k]
+                if isinstance(me, ast.Name) and me.id == evar and (
+                        (isinstance(pe, ast.Name) and ivar is not None and pe.id == ivar) or pos_expr(pe, evar, meth)):
+                    return k
+            return None
+
+        for name, meth in _methods_of(cls).items():
+            if meth.params[:1] != ['self'] or meth.node.decorator_list:
+                continue
+            nodes = list(walk_no_nested(meth.node))
+            yields = [n for n in nodes if isinstance(n, ast.Yield)]
+            yfrom = [n for n in nodes if isinstance(n, ast.YieldFrom)]
+            rets = [n for n in nodes if isinstance(n, ast.Return)]
+            stored = {x.id for x in nodes if isinstance(x, ast.Name) and isinstance(x.ctx, ast.Store)}
+            if name == '__iter__':
+                if not yields and not yfrom and len(rets) == 1 and rets[0].value is not None:
+                    v = rets[0].value
+                    if isinstance(v, ast.Call) and call_name(v) == 'iter' and len(v.args) == 1:
+                        v = v.args[0]
+                    if seq_of(v, meth) or (isinstance(v, ast.GeneratorExp) and len(v.generators) == 1
+                                           and not v.generators[0].ifs and isinstance(v.elt, ast.Name)
+                                           and norm(v.elt) == norm(v.generators[0].target)
+                                           and seq_of(v.generators[0].iter, meth)):
+                        h.iterates = True
+                elif not yields and len(yfrom) == 1 and not rets and seq_of(yfrom[0].value, meth) \
+                        and len([s for s in meth.node.body if not (isinstance(s, ast.Expr) and isinstance(s.value, ast.Constant))]) == 1:
+                    h.iterates = True
+                elif len(yields) == 1 and not yfrom and not rets:
+                    lp = getattr(getattr(yields[0], '_parent', None), '_parent', None)
+                    if isinstance(lp, ast.For) and any(lp is s for s in meth.node.body) and len(lp.body) == 1 \
+                            and not lp.orelse and isinstance(lp.target, ast.Name) and seq_of(lp.iter, meth) \
+                            and isinstance(yields[0].value, ast.Name) and yields[0].value.id == lp.target.id:
+                        h.iterates = True
+                continue
+            if name.startswith('__'):
+                continue
+            if yields and not yfrom and not any(r.value is not None for r in rets):
+                loops = [s for s in meth.node.body if isinstance(s, ast.For)]
+                lp = next((l for l in loops if all(is_within(y, l) for y in yields)), None)
+                if lp is None or lp.orelse:
+                    continue
+                pr = pairing(lp.target, lp.iter, lp, meth)
+                if pr is None:
+                    continue
+                # the member variable is the loop's own: not bound again inside the body
+                if sum(1 for x in ast.walk(lp) if isinstance(x, ast.Name) and isinstance(x.ctx, ast.Store) and x.id == pr[1]) != 1:
+                    continue
+                ks = {pair_of(y.value, pr[0], pr[1], meth) for y in yields}
+                if len(ks) == 1 and None not in ks:
+                    h.pair_gens[name] = (ks.pop(), lp, meth)
+                continue
+            if not yields and not yfrom and len(rets) == 1 and rets[0].value is not None:
+                v = rets[0].value
+                while isinstance(v, ast.Call) and call_name(v) in ('list', 'tuple', 'iter') and len(v.args) == 1 and not v.keywords:
+                    v = v.args[0]
+                if isinstance(v, (ast.ListComp, ast.GeneratorExp)) and len(v.generators) == 1:
+                    g = v.generators[0]
+                    pr = pairing(g.target, g.iter, v, meth)
+                    k = pair_of(v.elt, pr[0], pr[1], meth) if pr is not None else None
+                    if k is not None:
+                        h.pair_gens[name] = (k, None, meth)
+                    continue
+            if len(meth.params) == 2 and not yields and not yfrom and rets and meth.params[1] not in stored \
+                    and all(r.value is not None and pos_expr(r.value, meth.params[1], meth) for r in rets):
+                h.pos_methods.add(name)
+        if h.pos_methods or h.pair_gens or h.iterates:
+            found.append(h)
+    if len(found) == 1:
+        cls.node._c03_holder = found[0]
+    return cls.node._c03_holder
+
+
+def _of_other_class(node, attr, cls_) -> bool:
+    """the write `node` (from _attr_writes) goes to `self.<attr>` in a method of a class other than cls_"""
+    for x in ast.walk(node):
+        if isinstance(x, ast.Attribute) and x.attr == attr and not isinstance(x.ctx, ast.Load) or \
+                isinstance(x, ast.Attribute) and x.attr == attr and isinstance(getattr(x, '_parent', None), (ast.Subscript, ast.Attribute)):
+            if not _self_attr(x):
+                return False
+            k = next((a for a in ancestors(x) if isinstance(a, ast.ClassDef)), None)
+            return k is not None and k is not cls_.node
+    return False
+
+
+def derived_attr(prog, fi, e):
+    """For `O.A` where A is an attribute that the constructor (`__init__` / `__post_init__`) of O's class computes from
+    the object's other attributes - stored there once, unconditionally, and nowhere else in the module; the
+    attributes it is computed from are not stored anywhere outside that constructor either, so it cannot go stale -
+    the stored expression written over O (`self.axis = K(self.species)` read as `nc_file.axis` ->
+    `K(nc_file.species)`) and the class; else None."""
+    if not isinstance(e, ast.Attribute) or prog is None:
+        return None
+    owner = expr_class(prog, fi, e.value)
+    cands = [owner] if owner is not None else [
+        c for c in prog.all_classes() if any(
+            isinstance(n, ast.Attribute) and n.attr == e.attr and isinstance(n.ctx, ast.Store) and _self_attr(n)
+            for mth in _methods_of(c).values() for n in ast.walk(mth.node))]
+    if len(cands) != 1:
+        return None
+    cls_ = cands[0]
+    if owner is None and sum(1 for c in prog.all_classes() if e.attr in c.annotated_fields()) > 1:
+        return None
+    ws = _attr_writes(cls_.module.tree, e.attr)
+    if len(ws) != 1 or ws[0][0] != 'plain':
+        return None
+    st = ws[0][1]
+    ms = _methods_of(cls_)
+    ctor = next((ms[n] for n in ('__init__', '__post_init__') if n in ms and any(st is s for s in ms[n].node.body)), None)
+    tgt = st.targets[0] if isinstance(st, ast.Assign) and len(st.targets) == 1 else getattr(st, 'target', None)
+    if ctor is None or tgt is None or _self_attr(tgt) != e.attr or ctor.params[:1] != ['self']:
+        return None
+    v = st.value
+    if any(isinstance(n, (ast.NamedExpr, ast.Await, ast.Yield, ast.YieldFrom)) for n in ast.walk(v)):
+        return None
+    mapping = {}
+    stored_in_ctor = {x.id for x in ast.walk(ctor.node) if isinstance(x, ast.Name) and isinstance(x.ctx, (ast.Store, ast.Del))}
+    comp_bound = {x.id for c in ast.walk(v) if isinstance(c, ast.comprehension) for x in ast.walk(c.target)
+                  if isinstance(x, ast.Name)} | {a_.arg for l_ in ast.walk(v) if isinstance(l_, ast.Lambda)
+                                                 for a_ in ast.walk(l_.args) if isinstance(a_, ast.arg)}
+    if 'self' in comp_bound:
+        return None
+    reads = set()
+    for n in ast.walk(v):
+        if isinstance(n, ast.Name) and n.id == 'self':
+            par = getattr(n, '_parent', None)
+            if not (isinstance(par, ast.Attribute) and par.value is n):
+                return None
+            reads.add(par.attr)
+            mapping[id(n)] = e.value
+        elif isinstance(n, ast.Name) and n.id in comp_bound:
+            continue
+        elif isinstance(n, ast.Name) and n.id in ctor.params:
+            # a constructor parameter that the constructor also keeps as it is: `self.Q = p`
+            keep = [s for s in ctor.node.body if isinstance(s, ast.Assign) and len(s.targets) == 1
+                    and _self_attr(s.targets[0]) and isinstance(s.value, ast.Name) and s.value.id == n.id]
+            if n.id in stored_in_ctor or len(keep) != 1:
+                return None
+            q = _self_attr(keep[0].targets[0])
+            reads.add(q)
+            mapping[id(n)] = ast.copy_location(ast.Attribute(value=e.value, attr=q, ctx=ast.Load()), n)
+        elif isinstance(n, ast.Name) and n.id in stored_in_ctor:
+            return None
+    for q in reads:
+        for kind, node in _attr_writes(cls_.module.tree, q):
+            if not is_within(node, ctor.node) and not _of_other_class(node, q, cls_):
+                return None
+    return _rebuild(v, mapping), cls_
+
+
+def seq_behind(prog, fi, e, depth=0):
+    """The sequence behind an expression that denotes a sequence holder (Holder), as an expression: `K(S)` -> S;
+    `O.A` with A computed at construction as K(self.Q) -> `O.Q`; a local bound once to such.  e itself (stripped of
+    list() / `or []`) when it is not a holder construction."""
+    if prog is None or depth > 4:
+        return e
+    x = _strip_seq(e)
+    mod = fi.module
+    if isinstance(x, ast.Name) and x.id not in fi.params:
+        v = single_def_value(fi.node, x.id)
+        if isinstance(v, (ast.Call, ast.Attribute)):
+            r = seq_behind(prog, fi, v, depth + 1)
+            return r if r is not v else e
+        return e
+    if isinstance(x, ast.Attribute):
+        d = derived_attr(prog, fi, x)
+        if d is None:
+            return e
+        x, mod = d[0], d[1].module
+    if isinstance(x, ast.Call) and not any(isinstance(a_, ast.Starred) for a_ in x.args) \
+            and not any(k.arg is None for k in x.keywords):
+        cls_ = prog.resolve_class_expr(mod, x.func) or prog.resolve_class_expr(fi.module, x.func)
+        h = holder_of(prog, cls_)
+        if h is not None:
+            params = _ctor_of(cls_)[0]
+            a_ = kwarg(x, h.param)
+            i = params.index(h.param)
+            if a_ is None and i < len(x.args):
+                a_ = x.args[i]
+            if a_ is not None:
+                return seq_behind(prog, fi, a_, depth + 1)
+    return e
+
+
+def holder_use(prog, fi, n):
+    """(holder summary, receiver expression) when n is a call `X.m(…)` on an expression X whose class is a Holder"""
+    if prog is None or fi is None or not (isinstance(n, ast.Call) and isinstance(n.func, ast.Attribute)):
+        return None
+    try:
+        h = holder_of(prog, expr_class(prog, fi, n.func.value))
+    except RecursionError:
+        return None
+    return (h, n.func.value) if h is not None else None
+
+
 # ---------------------------------------------------------------- R1 -----
 def classify_axis_source(prog, fi, e: ast.expr, depth=0) -> str:
     """'enum:<Name>' | 'file' | 'other:<text>'"""
     if depth > 5:
         return 'other:' + norm(e)
+    if isinstance(e, (ast.Attribute, ast.Call)) or (isinstance(e, ast.Name) and e.id not in fi.params):
+        sb = seq_behind(prog, fi, e)
+        if sb is not e:
+            return classify_axis_source(prog, fi, sb, depth + 1)
     if isinstance(e, ast.BoolOp) and isinstance(e.op, ast.Or):
         # nc_file.species or []
         return classify_axis_source(prog, fi, e.values[0], depth + 1)
@@ -735,10 +1165,13 @@ def _default_of(fi, name):
     return None
 
 
-def _enumerates(fn_node):
+def _enumerates(fn_node, prog=None, fi=None):
     """(index variable / expression text, element variable, source expr, node) for every place where a position along a
     sequence S is paired with its member: `for i, x in enumerate(S)`, `for i in range(len(S))` (member `S[i]`),
-    `for i, x in zip(range(len(S)), S)`, `S.index(x)` - in loops and comprehensions."""
+    `for i, x in zip(range(len(S)), S)`, `S.index(x)` - in loops and comprehensions.  With a program: also what an
+    object that wraps the sequence (Holder) hands out - `for i, x in X.pairs(…)` over a method that produces
+    (position, member) pairs, `X.position(x)` - with X itself as the source (classify_axis_source reads the sequence
+    X was constructed over)."""
     out = []
     for n in ast.walk(fn_node):
         tgt = it = None
@@ -746,6 +1179,24 @@ def _enumerates(fn_node):
             tgt, it = n.target, n.iter
         elif isinstance(n, ast.comprehension):
             tgt, it = n.target, n.iter
+        hu = holder_use(prog, fi, it) if it is not None else None
+        if hu is not None and it.func.attr in hu[0].pair_gens and isinstance(tgt, ast.Tuple) and len(tgt.elts) == 2 \
+                and all(isinstance(x, ast.Name) for x in tgt.elts):
+            k, gen_loop, meth = hu[0].pair_gens[it.func.attr]
+            fake = ast.copy_location(ast.Call(func=ast.Name(id='enumerate', ctx=ast.Load()), args=[it], keywords=[]), it)
+            fake._c03_gen = (meth, gen_loop)
+            out.append((tgt.elts[k].id, tgt.elts[1 - k].id, hu[1], fake))
+            continue
+        hu = holder_use(prog, fi, n) if isinstance(n, ast.Call) else None
+        if hu is not None and n.func.attr in hu[0].pos_methods and len(n.args) == 1 and not n.keywords \
+                and isinstance(n.args[0], ast.Name):
+            fake = ast.copy_location(ast.Call(func=ast.Name(id='enumerate', ctx=ast.Load()), args=[hu[1]], keywords=[]), n)
+            par = getattr(n, '_parent', None)
+            ivar = norm(n)
+            if isinstance(par, ast.Assign) and len(par.targets) == 1 and isinstance(par.targets[0], ast.Name):
+                ivar = par.targets[0].id
+            out.append((ivar, n.args[0].id, hu[1], fake))
+            continue
         if it is not None and isinstance(it, ast.Call) and call_name(it) == 'enumerate' and it.args \
                 and isinstance(tgt, ast.Tuple) and len(tgt.elts) == 2 \
                 and all(isinstance(x, ast.Name) for x in tgt.elts):
@@ -1150,7 +1601,7 @@ def rule_axis(ctx, m, arms=None):
     sites = {'species': [], 'thrust_mode': []}
     top_of = {f_.qualname: top for top in (wr, rd) for f_ in scopes_of(top, arms, prog)}
     for role, fi in [(r_, f_) for r_, top in (('writer', wr), ('reader', rd)) for f_ in scopes_of(top, arms, prog)]:
-        for ivar, evar, src, node in _enumerates(fi.node):
+        for ivar, evar, src, node in _enumerates(fi.node, prog, fi):
             cl = classify_axis_source(prog, fi, src)
             ax = axis_of(cl)
             if ax is None:
@@ -1194,8 +1645,13 @@ def rule_axis(ctx, m, arms=None):
     n_loops = 0
     seen_loops = set()
     for ax in ('species', 'thrust_mode'):
+        loops = []
         for role, fi, cl, node, ivar in sites[ax]:
-            lp = _axis_loop(fi.node, node)
+            loops.append((role, fi, _axis_loop(fi.node, node)))
+            if getattr(node, '_c03_gen', None) is not None and node._c03_gen[1] is not None:
+                # the pairs come from a generator of the object that wraps the axis: its loop is the loop over the axis
+                loops.append((role, node._c03_gen[0], node._c03_gen[1]))
+        for role, fi, lp in loops:
             if lp is None or id(lp) in seen_loops:
                 continue
             seen_loops.add(id(lp))
@@ -1264,10 +1720,11 @@ def _axis_loop(fn, node):
     for lp in ast.walk(fn):
         if isinstance(lp, (ast.For, ast.AsyncFor)) and (lp.iter is node or same_site(node, lp.iter)):
             return lp
-    if isinstance(node, ast.Call) and isinstance(node.func, ast.Name) and node.func.id == 'enumerate' and node.args:
-        # the stand-in made for `S.index(x)`: located at the call, x bound by an enclosing loop
+    if isinstance(node, ast.Call) and isinstance(node.func, ast.Name) and node.func.id == 'enumerate' and node.args \
+            and not hasattr(node, '_c03_gen'):
+        # the stand-in made for `S.index(x)` / `X.position(x)`: located at the call, x bound by an enclosing loop
         real = next((c for c in ast.walk(fn) if isinstance(c, ast.Call) and isinstance(c.func, ast.Attribute)
-                     and c.func.attr == 'index' and same_site(node, c) and len(c.args) == 1 and isinstance(c.args[0], ast.Name)), None)
+                     and same_site(node, c) and len(c.args) == 1 and isinstance(c.args[0], ast.Name)), None)
         if real is not None:
             for a in ancestors(real):
                 if isinstance(a, (ast.FunctionDef, ast.AsyncFunctionDef, ast.Lambda)):
@@ -3758,8 +4215,9 @@ def rule_field_flow(ctx, m):
                        'the file\'s own species list is not handed to the writer/reader', line=c.lineno)
             else:
                 sp_alts = fl.alts(sp, st)
+                # an object that wraps the list (Holder) stands for the list it was constructed over
                 sps, bad = _with_expansion(fl, [_strip_seq(x) for x in sp_alts],
-                                           lambda x: peel_attr(_strip_seq(x), 'species'))
+                                           lambda x: peel_attr(_strip_seq(seq_behind(prog, fi, x)), 'species'))
                 if bad is not None:
                     ctx.undecided('C03-R1d', fi, untag(norm(bad))[:70], f'cannot tell whose species list is handed to {callee.name}')
                 owners_sp = sorted({norm(x) for x in sps})
